@@ -24,6 +24,7 @@ SRCS = {
     'names': 'a = a + f(a, k=a)  # c1\ndef g(a, b=a):\n    return [a for a in b if a]  # c2\n',
     'lists': 'v = [1, [2, 3], []] + [4]  # cv\nw = [[5, [6]], 7]\n',
     'nestlists': 'f([[a]], [[[[b]]]], [c])  # cf\ng([[[d]]])\n',
+    'callmix': 'r = f(a, k=1, *b)  # cm\ns = h(f(c, *d, m=2), f(e))\n',
     'binops': 'r = (a + b) * c - d  # cr\ns = f(a + b,\n      c ** 2)\n',
 }
 
@@ -99,6 +100,11 @@ ROWS = {
     'identity_binop': (lambda: MBinOp(), '__FST_', lambda n: isinstance(n, ast.BinOp), None),
     'str_slot': (lambda: MCall(func=MName(id='f'), args=[M(x=...)], keywords=[]), 'log("got __FST_x!", __FST_x)', _is_f_call1,
                  lambda n, sub: ast.Call(func=ast.Name(id='log', ctx=ast.Load()), args=[ast.Constant(value='got ' + ast.unparse(n.args[0]) + '!'), sub(n.args[0])], keywords=[])),
+    # a multi-node capture from the merged, source-ordered _args field (positional and keyword arguments interleaved)
+    'args_tail': (lambda: MCall(func=MName(id='f'), _args=[M(first=...), MQSTAR(rest=...)]), 'g(__FST_first, z, __FST_rest)',
+                  lambda n: isinstance(n, ast.Call) and isinstance(n.func, ast.Name) and n.func.id == 'f' and len(n.args) + len(n.keywords) >= 1
+                  and (not n.keywords or not n.args or (n.args[0].lineno, n.args[0].col_offset) < (n.keywords[0].value.lineno, n.keywords[0].value.col_offset)) and not isinstance(n.args[0], ast.Starred),
+                  lambda n, sub: ast.Call(func=ast.Name(id='g', ctx=ast.Load()), args=[sub(n.args[0]), ast.Name(id='z', ctx=ast.Load())] + [sub(a_) for a_ in n.args[1:]], keywords=[ast.keyword(arg=k_.arg, value=sub(k_.value)) for k_ in n.keywords])),
     'list_split': (lambda: MList(elts=[M(first=...), MQSTAR(rest=...)]), '(__FST_first, [__FST_rest])', lambda n: isinstance(n, ast.List) and len(n.elts) >= 1 and isinstance(n.ctx, ast.Load),
                    lambda n, sub: ast.Tuple(elts=[sub(n.elts[0]), ast.List(elts=[sub(e) for e in n.elts[1:]], ctx=ast.Load())], ctx=ast.Load())),
 }
@@ -192,7 +198,7 @@ def _mk(key, row):
 
 FNU = ['fst.match.subn', 'fst.match.sub', 'fst.match.search', 'fst.match._sub_quantifier_list_edge_item', 'fst.fst_traverse.walk', 'fst.fst_put_one._put_one']
 CELLS = []
-for _k, _rows in (('calls', ('call_wrap', 'identity_binop', 'str_slot')), ('names', ('name_attr', 'name_load_inst', 'name_store_inst')), ('lists', ('list_split',)), ('binops', ('identity_binop', 'name_attr'))):
+for _k, _rows in (('calls', ('call_wrap', 'identity_binop', 'str_slot')), ('names', ('name_attr', 'name_load_inst', 'name_store_inst')), ('lists', ('list_split',)), ('binops', ('identity_binop', 'name_attr')), ('callmix', ('args_tail',))):
     for _r in _rows:
         CELLS.append(Cell(f'P1.sub[{_k},{_r}]', _mk(_k, _r), 'P', FNU,
                           f'carrier {_k}; pattern/template row {_r} ({ROWS[_r][1]!r}); count symbolic in -2..12, nested and on=leave booleans (ctx= boolean for the rows whose pattern holds a context instance)',
